@@ -272,7 +272,7 @@ def extraction_by_interpretation(chk, v, f, why):
     effs = symexec.run_function(v, f, hooks=summ.LOCAL_HELPERS)[0]
     at = lambda t: ("init", concrete.lvalue_location(t, {}))
     for kv in (1, 2, 3):
-        for nv in (1, 2, 3, 4):
+        for nv in (1, 2, 3, 4, 5, 6, 8, 9, 10, 13):          # beyond every plausible unrolling factor plus its remainders
             for ix in range(nv):
                 st = concrete.PolyState()
 
@@ -347,11 +347,11 @@ def check_extraction(chk, v, rule="R5"):
         problems.append("b is not x->b[index]: %s" % [summ.show_piece(p) for p in bst])
     if shape:
         # the mask is not written by element statements in an (i, j) nest (a reversed copy, a separate negation pass, ...): the
-        # function is interpreted for k in 1..3, N in 1..4 and every index, with the sample's coefficients as indeterminates
+        # function is interpreted for k in 1..3, N up to 13 and every index, with the sample's coefficients as indeterminates
         wit = extraction_by_interpretation(chk, v, f, "; ".join(shape))
         if wit:
             problems.append(wit)
-        okmsg = "interpreted for k in 1..3, N in 1..4, every index: a[i*N+j] = (+/-) a_i[(index-j) mod N], b = b[index]"
+        okmsg = "interpreted for k in 1..3, N in {1..6, 8, 9, 10, 13}, every index: a[i*N+j] = (+/-) a_i[(index-j) mod N], b = b[index]"
     chk.require(not problems, rule, key, where=f.where, ok=okmsg or "; ".join("%s<-%s%s" % (i["range"], "-" if i["sign"] < 0 else "+", i["src"]) for i in infos)
                 + "; b = b[index]", bad="; ".join(problems)[:500], variant=vn, data={"pieces": infos})
     # the index-free wrapper uses index 0
@@ -485,7 +485,7 @@ def tlwe_monomial_by_interpretation(chk, v, f):
             if len(path) >= 3 and path[0] == 0 and path[1] == "b" and path[2] == 0:
                 return r_, (0, "a", kv) + tuple(path[3:])
             return loc
-        for nv in (1, 2, 3, 4):
+        for nv in (1, 2, 3, 4, 5, 6, 8, 9):
             for av in range(2 * nv):
                 st = concrete.PolyState(alias=alias)
                 coef = lambda ptr, j_, env: (lambda rp: (rp[0], rp[1] + ("coefsT", j_)))(concrete.location(ptr, env))
@@ -548,7 +548,7 @@ def check_tlwe_monomial(chk, v):
     if len(calls) != 1 or other or len(calls[0]["loops"]) != 1 or calls[0]["guards"]:
         # not one library call per component (the rotation written out, a peeled body, helpers): by interpretation
         wit = tlwe_monomial_by_interpretation(chk, v, f)
-        chk.require(wit is None, "R7", key, where=f.where, ok="interpreted for k in 1..3, N in 1..4 and every ai in [0, 2N): component i of the result is "
+        chk.require(wit is None, "R7", key, where=f.where, ok="interpreted for k in 1..3, N in {1..6, 8, 9} and every ai in [0, 2N): component i of the result is "
                     "(X^ai - 1) * component i of bk, for all k+1 components", bad=wit or "", variant=vn)
         chk.vcount(vn, "R7.tlwe_monomial_functions")
         return
